@@ -47,6 +47,9 @@ func genC15(cfg Config, ws *WorldSet, i, perWorld int) C15Case {
 		physCwd = "{W}/mod" + strings.TrimPrefix(cwd, "{W}/elsewhere/modlink")
 	}
 	iv := Invocation{Dry: fs&1 != 0, Print: fs&2 != 0, Log: fs&4 != 0, Cwd: cwd, Input: in, GoFile: gofile, FlagOrder: r.Intn(6)}
+	if r.Chance(1, 2) {
+		iv.Spell = 1 + r.Intn(1<<20)
+	}
 	kind := sim.Pick(r, c15Kinds)
 	pkgDir := filepath.Dir(setup)
 	// absolute paths are spelled the way a user in that shell would ($PWD/...)
